@@ -53,6 +53,10 @@ pub struct Case {
     /// must still shut the queue down)
     #[serde(default)]
     pub racing_appender: bool,
+    /// forget path only: flush futures requested earlier are neither awaited nor dropped before
+    /// the last queue handle goes away (a caller that fired a flush and kept the future around)
+    #[serde(default)]
+    pub keep_flush_futures: bool,
 }
 
 metrique_writer::sink::global_entry_sink! { C05Global }
@@ -269,7 +273,13 @@ pub fn check(case: &Case) -> CaseResult {
         }
         End::Forget => {
             no_panic("forget", || handle.take().unwrap().forget())?;
-            drop(flushes);
+            let kept = if case.keep_flush_futures && !flushes.is_empty() {
+                classes.push("forget-with-unawaited-flush-futures-alive");
+                Some(flushes)
+            } else {
+                drop(flushes);
+                None
+            };
             if case.during_flush {
                 // let the writer drain, then catch it inside a periodic flush and append + drop
                 // the last handle while it is held there
@@ -334,6 +344,13 @@ pub fn check(case: &Case) -> CaseResult {
                     "forget path: stream closed without a flush after the last entry"
                 );
             }
+            if let Some(kept) = kept {
+                for (i, f) in kept {
+                    if block_on_timeout(f, Duration::from_secs(5)).is_none() {
+                        vfail!("shutdown:flush-never-completes", "forget path: flush {i} requested before the last handle was dropped never completed although the stream is closed");
+                    }
+                }
+            }
             classes.push("forget-path");
             classes.push("nt");
         }
@@ -346,7 +363,7 @@ pub fn check(case: &Case) -> CaseResult {
     Ok(classes)
 }
 
-pub const RULE: &str = "histories of Append(n) / Clone / DropClone / FlushReq / Grant(k) on a typed or boxed queue whose writer is stalled behind a fuel gate, ended by (a) dropping the join handle while entries are still queued (a helper opens the gate after the drop began; in 30% of these cases the drop is performed by a guard object while its thread unwinds from a panic), (b) forgetting the join handle and dropping every queue handle - also with the last appends and the drop of the last handle placed while the writer thread is held inside one of its periodic stream flushes (harness-owned flush callback), (c) the same queue attached to a harness-declared global_entry_sink! and detached by dropping the AttachHandle, in half of these cases while another thread keeps calling try_append on the global; then appends after the end. Oracle over the event log: when the drop returns every entry appended before it began has reached the stream, the stream was flushed after the last of them and dropped; later appends never appear (try_append hands the entry back for a detached global); pending flush futures complete. Forget path, decided by counting: after the last queue handle is dropped the stream must be drained, flushed and dropped before 60 further periodic stream flushes are observed (else 'runs forever'); 10 s without either is inconclusive. Non-trivial = shutdown begins with entries still queued, or the forget path";
+pub const RULE: &str = "histories of Append(n) / Clone / DropClone / FlushReq / Grant(k) on a typed or boxed queue whose writer is stalled behind a fuel gate, ended by (a) dropping the join handle while entries are still queued (a helper opens the gate after the drop began; in 30% of these cases the drop is performed by a guard object while its thread unwinds from a panic), (b) forgetting the join handle and dropping every queue handle (flush futures requested earlier dropped first, or - half of the cases - kept alive and unawaited) - also with the last appends and the drop of the last handle placed while the writer thread is held inside one of its periodic stream flushes (harness-owned flush callback), (c) the same queue attached to a harness-declared global_entry_sink! and detached by dropping the AttachHandle, in half of these cases while another thread keeps calling try_append on the global; then appends after the end. Oracle over the event log: when the drop returns every entry appended before it began has reached the stream, the stream was flushed after the last of them and dropped; later appends never appear (try_append hands the entry back for a detached global); pending flush futures complete. Forget path, decided by counting: after the last queue handle is dropped the stream must be drained, flushed and dropped before 60 further periodic stream flushes are observed (else 'runs forever'); 10 s without either is inconclusive. Non-trivial = shutdown begins with entries still queued, or the forget path";
 
 pub fn run(ctx: &mut Ctx) {
     ctx.assume("termination of the forgotten queue is decided by counting the writer's periodic stream flushes (flush interval 1 ms / 50 us), never by a wall-clock deadline");
@@ -355,7 +372,7 @@ pub fn run(ctx: &mut Ctx) {
         SubCfg::new("c05-shutdown", RULE, if q { 500 } else { 12_000 })
             .threads(ctx.tier.pick(4, 8))
             .shrink_iters(60)
-            .mandatory(&["entries-queued-at-shutdown", "forget-path", "drop-handle", "global-detach", "append-after-shutdown", "last-handle-dropped-during-periodic-flush", "handle-dropped-while-unwinding", "detach-with-racing-appender"]),
+            .mandatory(&["entries-queued-at-shutdown", "forget-path", "drop-handle", "global-detach", "append-after-shutdown", "last-handle-dropped-during-periodic-flush", "handle-dropped-while-unwinding", "detach-with-racing-appender", "forget-with-unawaited-flush-futures-alive"]),
         || {
             (
                 any::<bool>(),
@@ -376,8 +393,9 @@ pub fn run(ctx: &mut Ctx) {
                 any::<bool>(),
                 prop::bool::weighted(0.3),
                 prop::bool::weighted(0.5),
+                prop::bool::weighted(0.5),
             )
-                .prop_map(|(boxed, ops, end, after, open_delay, flush_ms, during_flush, unwinding, racing_appender)| Case {
+                .prop_map(|(boxed, ops, end, after, open_delay, flush_ms, during_flush, unwinding, racing_appender, keep_flush_futures)| Case {
                     boxed,
                     ops,
                     end,
@@ -387,6 +405,7 @@ pub fn run(ctx: &mut Ctx) {
                     during_flush,
                     unwinding,
                     racing_appender,
+                    keep_flush_futures,
                 })
         },
         check,
